@@ -240,8 +240,10 @@ pub fn gen_fns(d: &mut Dec, stateful: bool) -> BTreeMap<String, FnSpec> {
     let args = similar_args();
     let mut fns = BTreeMap::new();
     let n = 2 + d.below(3);
-    for name in PROBE_NAMES.iter().take(n) {
-        let cacheable = d.below(3) != 0;
+    let order: [&str; 4] = if d.bool() { PROBE_NAMES } else { ["fd", "fa", "fb", "fc"] };
+    for name in order.iter().take(n) {
+        // "fd" is registered without overriding cacheable(): the documented default (cacheable) must apply
+        let cacheable = d.below(3) != 0 || *name == crate::probe::DEFAULT_CACHEABILITY_NAME;
         let mut fail_on = vec![];
         let nf = if d.below(3) == 0 { 1 + d.below(3) } else { 0 };
         for _ in 0..nf {
